@@ -96,7 +96,25 @@ def nc_siblings(n: size, x: f32[n], y: f32[n]):
         x[i] = t
 
 
-PROCS = [nc_shadow_arg, nc_shadow_size, nc_nested, nc_alloc, nc_bool, nc_inlined, nc_div, nc_siblings]
+# a window statement inside an inlined callee named like a window argument of the caller (strides of both are live)
+@proc
+def _nc_colsum(n: size, x: [f32][n, n], z: [f32][n]):
+    assert n >= 2
+    y = x[0:n, 1]
+    for j in seq(0, n):
+        z[j] += y[j]
+
+
+@proc
+def _nc_win_caller(n: size, x: [f32][n, n], y: [f32][n]):
+    assert n >= 2
+    _nc_colsum(n, x, y)
+
+
+nc_win_inlined = rename(inline(_nc_win_caller, "_nc_colsum(_)"), "nc_win_inlined")
+
+
+PROCS = [nc_win_inlined, nc_shadow_arg, nc_shadow_size, nc_nested, nc_alloc, nc_bool, nc_inlined, nc_div, nc_siblings]
 CONFIGS = []
 
 
